@@ -50,4 +50,51 @@ PROPS = {
         'assumptions': CON_ASSUMPTIONS + ['Concurrent mutation of heterogeneous listener lists and of MixinFilter filter lists is not simulated (their mutex is hard-wired to std::mutex).'],
         'extra_coverage': con_extra(['c03']),
     },
+    'C06': {
+        'engine': 'con_queue',
+        'level': 'exploration',
+        'technique': 'deterministic simulation: seeded controlled scheduler over the real EventQueue/HeterEventQueue code (QueueList seam / guarded hook points), per-event conservation ledger, per-pair FIFO, happens-before check, injected listener exceptions',
+        'level_text': 'Seeded search over interleavings of producers and consumers at every lock, atomic, list operation and unlocked emptiness check; each run is judged by a per-event ledger (exactly one of dispatched / taken / cleared / discarded-by-exception, payload intact), FIFO per producer-consumer pair where the statement promises it, absence of deadlock and of unsynchronised list accesses. Sampling, not enumeration.',
+        'level_note': 'Trusted: the simulator, SimList as a faithful std::list wrapper, sequential consistency. HeterEventQueue uses hook points instead of the list seam (its std::list is hard-coded), so its interleavings are coarser.',
+        'stages': [
+            {'name': 'c06', 'bin': 'con_queue', 'mode': 'c06', 'runs': {'quick': 200000, 'thorough': 5000000}, 'time': {'quick': 90, 'thorough': 900}},
+        ],
+        'rule': 'Each evaluation is one simulated execution of a seeded plan (1-3 producers x 1-4 enqueues, some inside DisableQueueNotify scopes; 1-3 consumers x 1-4 calls of '
+                'process/processOne/processIf/processUntil/takeEvent/peekEvent/clearEvents/emptyQueue; low-rate listener exception) on EventQueue (SimList seam) or HeterEventQueue (hook points) '
+                'under one seeded schedule. Non-trivial = a preemption landed inside another task\'s library call; distinct = distinct (task, tag) switch-sequence hashes.',
+        'real_vs_stub': REAL_STUB_CON,
+        'assumptions': CON_ASSUMPTIONS,
+        'extra_coverage': con_extra(['c06']),
+    },
+    'C07': {
+        'engine': 'con_queue',
+        'level': 'exploration',
+        'technique': 'deterministic simulation: seeded controlled scheduler with simulated condition variable and clock; terminal-state (lost wake-up) check, early-return and timeout oracles; injected spurious wake-ups, late timers, stalled tasks',
+        'level_text': 'Seeded search over interleavings of draining waiters, enqueuers (with nested DisableQueueNotify scopes) and processors, including preemption between a waiter\'s predicate evaluation and its blocking. Because plans are finite, "blocked forever" is decided as "blocked at the terminal state". Spurious wake-ups and late timers are injected. Sampling, not enumeration.',
+        'level_note': 'Trusted: SimCondVar models std::condition_variable (atomic unlock-and-wait, notify_one wakes one arbitrary waiter, spurious wake-ups, timers never early). Sequential consistency.',
+        'stages': [
+            {'name': 'c07', 'bin': 'con_queue', 'mode': 'c07', 'runs': {'quick': 200000, 'thorough': 5000000}, 'time': {'quick': 90, 'thorough': 900}},
+        ],
+        'rule': 'Each evaluation is one simulated execution of a seeded plan (1-3 draining waiters using wait or waitFor, 1-2 enqueuers with and without nested DisableQueueNotify scopes, '
+                'optionally one processor) on EventQueue or HeterEventQueue under one seeded schedule, with spurious wake-ups in a third of the runs and a per-run clock quantum. '
+                'Non-trivial = a preemption landed inside another task\'s library call; distinct = distinct (task, tag) switch-sequence hashes.',
+        'real_vs_stub': REAL_STUB_CON,
+        'assumptions': CON_ASSUMPTIONS + ['processIf/processUntil are not used by the processing tasks of these plans (DESIGN.md C07 traps).'],
+        'extra_coverage': con_extra(['c07']),
+    },
+    'C11': {
+        'engine': 'con_queue',
+        'level': 'exploration',
+        'technique': 'deterministic simulation: seeded controlled scheduler; interval oracle over the per-event ledger for every emptyQueue()==true / waitFor()==false observation',
+        'level_text': 'Seeded search over interleavings of observers (emptyQueue, waitFor) with enqueuers and tasks running process/processOne/takeEvent/clearEvents; every "empty" observation is checked against the event ledger using simulator event sequence numbers. Sampling, not enumeration.',
+        'level_note': 'Trusted: the simulator; the two reads of emptyQueue() are separate scheduling points (list seam + atomic). processIf/processUntil are outside this property\'s quantifier and are not generated.',
+        'stages': [
+            {'name': 'c11', 'bin': 'con_queue', 'mode': 'c11', 'runs': {'quick': 200000, 'thorough': 5000000}, 'time': {'quick': 90, 'thorough': 900}},
+        ],
+        'rule': 'Each evaluation is one simulated execution of a seeded plan (1-2 enqueuers, 1-2 tasks running process/processOne/takeEvent/clearEvents, 1-2 observers calling emptyQueue / waitFor) '
+                'under one seeded schedule. Non-trivial = a preemption landed inside another task\'s library call; distinct = distinct (task, tag) switch-sequence hashes.',
+        'real_vs_stub': REAL_STUB_CON,
+        'assumptions': CON_ASSUMPTIONS,
+        'extra_coverage': con_extra(['c11']),
+    },
 }
